@@ -15,7 +15,29 @@ def reset_event(cfg, today=0, extra=None):
     return e
 
 
+CHUNK = 40000      # events per TLC run: a longer trace is cut at reset events (each cut starts from a fresh calculator, as the trace itself says)
+
+
 def validate_trace(rep, events, tag, timeout=1800):
+    if len(events) <= CHUNK + CHUNK // 2:
+        return _validate(rep, events, tag, timeout)
+    bad = []
+    start = 0
+    k = 0
+    while start < len(events):
+        end = min(start + CHUNK, len(events))
+        while end < len(events) and events[end].get("ev") != "reset":
+            end += 1
+        for b in _validate(rep, events[start:end], "%s.part%d" % (tag, k), timeout):
+            b = dict(b)
+            b["l"] += start
+            bad.append(b)
+        start = end
+        k += 1
+    return bad
+
+
+def _validate(rep, events, tag, timeout=1800):
     d = os.path.join(OUT, "run")
     os.makedirs(d, exist_ok=True)
     path = os.path.join(d, tag + ".trace.ndjson")
